@@ -97,6 +97,13 @@ def file_pipeline(path):
     return {"content": repr(observe.prog_canon(p, exact=True)), "text": blackbird.dumps(p)}
 
 
+def loads_relative():
+    import blackbird
+    observe.reset_tables()
+    p = blackbird.loads(H + 'include "sub.xbb"\n\nSub(x=1, y=2) | [3, 4]\nG({a}+{alpha}) | 0\n')
+    return {"content": repr(observe.prog_canon(p, exact=True)), "text": blackbird.dumps(p)}
+
+
 def repeat_check(text):
     """'every run': doing the same thing a second time on the same objects gives the same text"""
     import blackbird
@@ -229,6 +236,7 @@ warnings.simplefilter('ignore')
 sys.path.insert(0, %(verif)r)
 from bbv.props import c19
 import sympy
+import blackbird          # imported while the process is still where it was started; the work happens elsewhere
 M = c19.menu(%(d)r)
 FM = c19.file_menu(%(d)r)
 os.chdir(%(cwd)r)
@@ -247,6 +255,12 @@ for k, path in FM.items():
         out["file:" + k] = json.dumps(c19.file_pipeline(path), sort_keys=True)
     except Exception as e:
         out["file:" + k] = "EXC:" + type(e).__name__ + ":" + str(e)[:100]
+# a script given as a string names its include relative to where the process is at the time of the call
+os.chdir(os.path.join(%(d)r, "proj"))
+try:
+    out["file:loads-relative-include-after-chdir"] = json.dumps(c19.loads_relative(), sort_keys=True)
+except Exception as e:
+    out["file:loads-relative-include-after-chdir"] = "EXC:" + type(e).__name__ + ":" + str(e)[:100]
 print(json.dumps({"orders": orders, "obs": out}))
 """
 
@@ -308,7 +322,7 @@ def run(ctx):
     cover_complete = all(len(seen[k]) >= need[k] for k in need)
     ref_seed = seeds[0]
     ncw = len(cwds(d))
-    for k in list(M) + ["file:" + f for f in FM]:
+    for k in list(M) + ["file:" + f for f in FM] + ["file:loads-relative-include-after-chdir"]:
         outs = collections.defaultdict(list)
         for s in seeds:
             outs[runs[s]["obs"][k]].append(s)
